@@ -149,6 +149,7 @@ type ConfigSpec struct {
 	Ext      *string   `json:"ext,omitempty"`
 	Update   *bool     `json:"update,omitempty"`
 	JSON     *JSONOpts `json:"json,omitempty"`
+	JSON2    *JSONOpts `json:"json2,omitempty"` // a second JSON option, given after the first
 }
 
 type CleanSpec struct {
